@@ -179,7 +179,7 @@ TFlush ==
     /\ UNCHANGED sess
 
 TSkip ==
-    /\ IsEvent({"keys", "clock", "mark", "skip", "tamper"})
+    /\ IsEvent({"keys", "clock", "mark", "skip", "tamper", "sid", "sidedit", "tickkey"})
     /\ UNCHANGED sess
 
 TraceInit == l = 1 /\ sess = [x \in {} |-> 0]
